@@ -148,6 +148,17 @@ def second_spec():
     return ArchSpec(layout=lay, float_constants={"pitch": 0.75}, int_constants={"rows": 4})
 
 
+def pos_text(ap):
+    """a path with the coordinates of every waypoint spelled out (path_text names grids abstractly)"""
+    out = []
+    for a in ap:
+        if a[0] == "W":
+            out.append("W" + ";".join(f"{tuple(g.x_positions)}x{tuple(g.y_positions)}" for g in a[1]))
+        else:
+            out.append(f"S({a[1]},{a[4]},{a[5]})")
+    return " ".join(out)
+
+
 def spec_reading_cases(ctx):
     """device kernels that read the spec while being traced, evaluated on every route under two
     different specs in alternation within one process (a route must use the spec of THIS evaluation)"""
@@ -164,7 +175,7 @@ def spec_reading_cases(ctx):
                 if rev:
                     from props.c02 import _rev_abs
                     direct = _rev_abs(direct)
-                want = tc.path_text(direct, tc.GridTable())
+                want = pos_text(direct)
                 for rname, dec, plain, byparam in ROUTES:
                     call = f"{callee}(p0=x0)" if byparam else f"{callee}(2.0)"
                     src = (f"@move{dec}\ndef main({'x0: float' if byparam else ''}):\n    f = schedule.device_fn(kz, [0], [0])\n"
@@ -179,7 +190,7 @@ def spec_reading_cases(ctx):
                     if st != "ok" or len(evs) != 1 or evs[0][0] != "play":
                         ctx.fail({"kind": "no-path", "route": rname, "spec_reading_kernel": True}, rep, f"{rname}: spec-reading kernel under spec {sname} did not play a path: {extra}")
                         continue
-                    got = tc.path_text(tc.abstract_path(evs[0][1].path), tc.GridTable())
+                    got = pos_text(tc.abstract_path(evs[0][1].path))
                     if got != want:
                         ctx.fail({"kind": "wrong-path", "route": rname, "spec_reading_kernel": True, "reversed": rev}, rep,
                                  f"{rname}: kernel reading the spec, evaluated under spec {sname} after another spec was used, gave {got[:100]} expected {want[:100]}")
